@@ -242,4 +242,84 @@ theorem stepSeq_performed (A B : DArr) (ix : IndexArg) (d : Arr) (h : stepSeq A 
     obtain ⟨d', hc, hwd⟩ := writeSeq_ok hw
     exact ⟨d', hc, by simp [stepS, hwd, runOf]⟩
 
+theorem writeSeq_as_array (A : DArr) (d : Arr) (ix : IndexArg) :
+    (writeSeq A d ix).map (fun x => (runOf A x).1) = (seqAsArray A d ix).map (fun s' => (stepS A s').1) := by
+  unfold writeSeq seqAsArray
+  split
+  · rfl
+  · cases hc : castSeq A.dtype d with
+    | none => rfl
+    | some r =>
+      cases r with
+      | error e => rfl
+      | ok d' => rfl
+
+/-- one sequence step is an array step: the assignment of the cast values, or nothing when it was refused before
+the write -/
+theorem stepSeq_as_array (A : DArr) (s : TStep) :
+    (stepSeq A s).map (fun p => p.1) = (arrayStepOf A s).map (fun s' => (stepS A s').1) := by
+  cases s with
+  | write d =>
+    simp only [stepSeq, arrayStepOf, Option.map_map]
+    exact writeSeq_as_array A d .none
+  | assign ix d =>
+    simp only [stepSeq, arrayStepOf, Option.map_map]
+    exact writeSeq_as_array A d ix
+  | append d axis => rfl
+  | resize e => rfl
+  | reopen => rfl
+
+/-- every history with sequence sources is the history with array sources `toArrays` computes -/
+theorem runMixed_eq : ∀ (l : List (TStep × Bool)) (A : DArr), runMixed A l = (toArrays A l).map (runS A)
+  | [], A => rfl
+  | (s, seq) :: rest, A => by
+    cases seq with
+    | false =>
+      simp only [runMixed, toArrays, Bool.false_eq_true, if_false]
+      rw [runMixed_eq rest (stepS A s).1]
+      cases toArrays (stepS A s).1 rest <;> rfl
+    | true =>
+      have h := stepSeq_as_array A s
+      simp only [runMixed, toArrays, if_true]
+      cases hs : stepSeq A s with
+      | none =>
+        rw [hs] at h
+        cases ha : arrayStepOf A s with
+        | none => rfl
+        | some s' => rw [ha] at h; cases h
+      | some p =>
+        rw [hs] at h
+        cases ha : arrayStepOf A s with
+        | none => rw [ha] at h; cases h
+        | some s' =>
+          rw [ha] at h
+          simp only [Option.map_some, Option.some.injEq] at h
+          obtain ⟨C, r⟩ := p
+          simp only at h
+          subst h
+          simp only []
+          rw [runMixed_eq rest (stepS A s').1]
+          cases toArrays (stepS A s').1 rest <;> rfl
+
+/-- no typed step changes the element type or the filter flag (no hypothesis on the index arguments) -/
+theorem runS_meta : ∀ (steps : List TStep) (A : DArr),
+    (runS A steps).dtype = A.dtype ∧ (runS A steps).compressed = A.compressed
+  | [], _ => ⟨rfl, rfl⟩
+  | s :: rest, A => by
+    have h1 := stepS_meta A s
+    have h2 := runS_meta rest (stepS A s).1
+    exact ⟨by simp only [runS]; rw [h2.1, h1.1], by simp only [runS]; rw [h2.2, h1.2]⟩
+
+theorem toArrays_length : ∀ (l : List (TStep × Bool)) (A : DArr) (l' : List TStep), toArrays A l = some l' →
+    l'.length = l.length
+  | [], A, l', h => by simp only [toArrays, Option.some.injEq] at h; subst h; rfl
+  | (s, seq) :: rest, A, l', h => by
+    simp only [toArrays] at h
+    cases hs : (if seq = true then arrayStepOf A s else some s) with
+    | none => simp [hs] at h
+    | some s' =>
+      simp only [hs, Option.map_eq_some_iff] at h
+      obtain ⟨t, ht, rfl⟩ := h
+      simp [toArrays_length rest _ t ht]
+
 end Nix.Nd.Lemmas
